@@ -88,6 +88,12 @@ func TestC52(t *testing.T) {
 		m.Eval()
 	}
 	G1 := bnref.G1Gen()
+	if mon.RaceBuild {
+		// race variant: only the shared-value concurrency streams (c52_conc_test.go)
+		concStreams(m, G1, G2)
+		return
+	}
+	defer concStreams(m, G1, G2)
 
 	// ---- G1 group laws vs reference ----
 	m.Cases("g1", m.N(600, 20000), func(i int64, r *rand.Rand) {
